@@ -35,11 +35,15 @@ Definition dinv (s : state) (d : side) : bool := dir_inv (main s) (done s) (getd
 
 (* the upstream connection is closed exactly when Proxy has returned; the
    caller closes the client connection only after that *)
+Definition not_errsend (w : wpc) : bool := match w with WErrSend => false | _ => true end.
+
 Definition glob1 (s : state) : bool :=
   match main s with
   | MReturned => sc_closed s
   | _ => negb (sc_closed s) && negb (cc_closed s)
-  end.
+  end
+  (* writerErr is buffered: the writer never waits to hand its error over *)
+  && not_errsend (wr (dc s)) && not_errsend (wr (ds s)).
 
 (* evidence that the session is ending *)
 Definition left_loop (r : rpc) : Prop := r = RDoneSend \/ r = RExited \/ r = RRet.
@@ -74,6 +78,7 @@ Ltac crush_var :=
   | |- context [reader_alive ?v] => is_var v; destruct v
   | |- context [writer_alive ?v] => is_var v; destruct v
   | |- context [rf_gone ?v] => is_var v; destruct v
+  | |- context [not_errsend ?v] => is_var v; destruct v
   end.
 
 Ltac finish := simpl in *; try rewrite !orb_true_r; try reflexivity; try discriminate; try assumption.
@@ -91,7 +96,7 @@ Ltac step_cases s l Hs :=
   destruct l; repeat match goal with t : side |- _ => destruct t end;
   cbn [step getd setd with_rd with_rd_rf exit_failed set_trig set_remote remote
        dc ds main cli srv wbroken_c wbroken_s sc_closed cc_closed closing done trig
-       rd wr wfailed werr chan queued rf inflight other cfg_fixed fix_close fix_done fix_abort] in Hs;
+       rd wr wfailed werr chan queued rf inflight other cfg_fixed fix_close fix_done fix_abort werr_buffered] in Hs;
   repeat bm; try discriminate Hs; inversion Hs; subst; clear Hs;
   repeat match goal with t : side |- _ => destruct t end.
 
@@ -129,7 +134,7 @@ Lemma glob1_step : forall s l s',
   step cfg_fixed s l = Some s' -> glob1 s' = true.
 Proof.
   intros s l s' Hc Hv Hg Hs.
-  step_cases s l Hs; unfold glob1 in *; red_state; clear Hc Hv; crush.
+  step_cases s l Hs; unfold glob1 in *; red_state; clear Hc Hv; split_hyps; split_goal; crush.
 Qed.
 
 Ltac ev_tac :=
